@@ -97,9 +97,36 @@ def smc(cpu, o, row):
     raise RefUndefined()
 
 
-@sem('bkpt', 'yield', 'sev', 'dsb', 'isb', 'pld', 'cp', 'enterx')
+@sem('bkpt', 'yield', 'sev', 'dsb', 'isb', 'pld', 'enterx')
 def not_modelled(cpu, o, row):
     raise RefNotModelled(row.sem + ': mock hook / not implemented by the emulator')
+
+
+@sem('cp')
+def coprocessor(cpu, o, row):
+    """Coproc_Accepted() for the generic coprocessors (B1.11.2): denied -> UNDEFINED (or Hyp trap); accepted -> the
+    emulator's back-end is a mock (not modelled)"""
+    cp = o['cp']
+    if cp in (10, 11, 14, 15):
+        raise RefNotModelled('cp%d has its own decode' % cp)
+    secure = cpu.is_secure()
+    hyp = cpu.mode == M_HYP
+    if cpu.have_sec() and not secure and not (cpu.s['nsacr'] >> cp) & 1:
+        raise RefUndefined()
+    if not (cpu.have_virt() and hyp):
+        field = (cpu.s['cpacr'] >> (2 * cp)) & 3
+        if field == 0:
+            raise RefUndefined()
+        if field == 1 and cpu.mode == M_USR:
+            raise RefUndefined()
+        if field == 2:
+            raise RefUnpredictable('CPACR field == 10')
+    if cpu.have_sec() and cpu.have_virt() and not secure and (cpu.s['hcptr'] >> cp) & 1:
+        if hyp:
+            raise RefUndefined()
+        cpu.unknown.add('hsr')
+        raise RefHypTrap()
+    raise RefNotModelled('accepted coprocessor instruction: mock back-end')
 
 
 @sem('nop', 'clrex')
